@@ -182,6 +182,10 @@ func runVector(v *Vector, seed int64, wantTrace bool) VecResult {
 			args = J{}
 		}
 		obs := runAct(e, st, e.present(st.Act, args, false))
+		if which := e.inputsWritten(st.Act, args); which != "" {
+			res.Failures = append(res.Failures, Failure{Vid: v.ID, Step: i + 1, Act: st.Act, Prop: st.Prop, Key: "inputs", Got: "the call changed the caller's input buffer (" + which + ")",
+				Want: "inputs unchanged", Sig: "inputs-written@" + which})
+		}
 		e.scribble(st.Act)
 		e.obs = append(e.obs, obs)
 		if msg, bad := obs["infra"]; bad {
@@ -238,7 +242,7 @@ func runVector(v *Vector, seed int64, wantTrace bool) VecResult {
 		}
 		for _, k := range keys {
 			if !eqJ(obs[k], exp[k]) {
-				f := Failure{Vid: v.ID, Step: i + 1, Act: st.Act, Prop: st.Prop, Key: k, Got: short(obs[k]), Want: short(exp[k]), Soft: st.Soft && k != "panic", Sig: sig}
+				f := Failure{Vid: v.ID, Step: i + 1, Act: st.Act, Prop: st.Prop, Key: k, Got: short(obs[k]), Want: short(exp[k]), Soft: st.Soft && k != "panic" && k != "junkok", Sig: sig}
 				if k == "panic" {
 					f.Got = short(J{"panic": obs["panic"], "msg": obs["panicmsg"]})
 				} else if f.Sig == "" {
